@@ -20,6 +20,9 @@ implementation of a listed family computes the datasheet function.  This file co
   `resolve_tlib_cells` under `resolveOKB` (as `resolve_sem`), if every library-cell instance has the certificate `InstCert`,
   then the consistent 2-valued labellings of `h'` are EXACTLY the labellings of the original circuit that are consistent outside
   the library cells and give each instance its datasheet function (`CellDatasheet`): (1) restriction, (2) extension.
+* **`resolve_datasheet_sem_general`** (audit finding 6): the same along the index maps of `resolve_sem_general` under `resolveGenOKB`
+  (substitutions may remove lines, instances, dangling logic; host `wfNoTrail`) — the hypothesis `resolveOKB` of the first form holds
+  on few generated cases, the general form raises the coverage (tags `ds-hyp:covered` / `ds-hyp:covered-general`).
 * **Which cells are covered:** `InstCert` is decidable clause by clause; the harness (harness/c10.py, stream `ds-cert`, driver
   `dscell` + `netcert` + `netspeccert`) evaluates the cell-level clauses for every key of the five libraries on every run:
   all 656 keys of the listed families (AND/OR/NAND/NOR/XOR/XNOR, buffers, inverters, AO/OA/AOI/OAI, multiplexers, half/full
@@ -58,6 +61,42 @@ theorem resolve_datasheet_sem (lib : Lib) (row : String → Cell) (ord : String 
   · intro an' v' hc
     obtain ⟨g1, g2⟩ := fw an' v' hc
     exact ⟨g1, fun c hc1 hc2 => (cell_datasheet_iff (hcert c hc1 hc2) v').mp (g2 c hc1 hc2)⟩
+  · intro an v hc hds
+    exact bw an v hc (fun c hc1 hc2 => (cell_datasheet_iff (hcert c hc1 hc2) v).mpr (hds c hc1 hc2))
+
+/-- **resolve_datasheet_sem, general form** (audit finding 6: the first form needs `resolveOKB`, which few real cases satisfy).
+    `resolve_tlib_cells` through substitutions that may REMOVE lines, instances and dangling logic (`resolveGenOKB`, as
+    `resolve_sem_general`; host well-formed up to trailing `None`s), every library-cell instance certified (`InstCert`): along
+    the index maps `ρ` of `resolve_sem_general`, **(1)** every consistent 2-valued labelling of the result is the restriction of a
+    labelling of the WHOLE original circuit that is consistent outside the library cells and gives every instance its
+    datasheet function (`CellDatasheet`: every connected output pin `k` carries `datasheet family pins [k]` of the values on the
+    input pins); **(2)** conversely every such labelling of the original circuit restricts/extends to a consistent labelling of
+    the result.  The success of the model (`resolveCells … = some h'`) follows from `resolveGenOKB` (`resolve_isSome_of_genOK`,
+    Props/C10Library.lean) and is kept as a hypothesis only to name `h'`. -/
+theorem resolve_datasheet_sem_general (lib : Lib) (row : String → Cell) (ord : String → List Nat) (h h' : NNet)
+    (hw : h.wfNoTrail = true) (hok : resolveGenOKB lib h.keys h = true) (he : resolveCells lib h = some h')
+    (hcert : ∀ c, c < h.net.nodes.size → (lib.find (h.net.node c).kind).isSome = true → InstCert lib row ord h c) :
+    h'.wfNoTrail = true ∧ ∃ ρ : Ren,
+      h'.net.io.map ρ.node = h.net.io ∧
+      (∀ d, d < h.net.nodes.size → (lib.find (h.net.node d).kind).isSome = false →
+        ∃ j, j < h'.net.nodes.size ∧ ρ.node j = d ∧ (h'.net.node j).kind = (h.net.node d).kind ∧
+          h'.names.getD j "" = h.names.getD d "" ∧ ∀ k, ((h'.net.node j).inPin k).map ρ.line = (h.net.node d).inPin k) ∧
+      (∀ an' v' : Nat → Bool, ConsOff h' (fun _ => False) false (!·) prim2 an' v' →
+        ∃ an v, ConsOff h (fun x => x < h.net.nodes.size ∧ (lib.find (h.net.node x).kind).isSome = true) false (!·) prim2 an v ∧
+          (∀ c, c < h.net.nodes.size → (lib.find (h.net.node c).kind).isSome = true → CellDatasheet row h c v) ∧
+          (∀ l', l' < h'.net.lines.size → ρ.line l' < h.net.lines.size → v (ρ.line l') = v' l') ∧
+          (∀ j, j < h'.net.nodes.size → ρ.node j < h.net.nodes.size → an (ρ.node j) = an' j)) ∧
+      (∀ an v : Nat → Bool,
+        ConsOff h (fun x => x < h.net.nodes.size ∧ (lib.find (h.net.node x).kind).isSome = true) false (!·) prim2 an v →
+        (∀ c, c < h.net.nodes.size → (lib.find (h.net.node c).kind).isSome = true → CellDatasheet row h c v) →
+        ∃ an' v', ConsOff h' (fun _ => False) false (!·) prim2 an' v' ∧
+          (∀ l', l' < h'.net.lines.size → ρ.line l' < h.net.lines.size → v' l' = v (ρ.line l')) ∧
+          (∀ j, j < h'.net.nodes.size → ρ.node j < h.net.nodes.size → an' j = an (ρ.node j))) := by
+  obtain ⟨r1, ρ, r2, _, _, r5, fw, bw⟩ := resolve_sem_general lib h h' hw hok he false (!·) prim2
+  refine ⟨r1, ρ, r2, r5, ?_, ?_⟩
+  · intro an' v' hc
+    obtain ⟨an, v, g1, g2, g3, g4⟩ := fw an' v' hc
+    exact ⟨an, v, g1, fun c hc1 hc2 => (cell_datasheet_iff (hcert c hc1 hc2) v).mp (g2 c hc1 hc2), g3, g4⟩
   · intro an v hc hds
     exact bw an v hc (fun c hc1 hc2 => (cell_datasheet_iff (hcert c hc1 hc2) v).mpr (hds c hc1 hc2))
 
